@@ -2038,12 +2038,20 @@ getattr_delegate(trait_object *trait, has_traits_object *obj, PyObject *name)
     PyObject *result;
     PyObject *dict = obj->obj_dict;
 
+    /* The delegate may defer back to this object, directly or through a
+       cycle of delegates: bound the recursion so that it surfaces as a
+       RecursionError instead of overflowing the C stack. */
+    if (Py_EnterRecursiveCall(" while getting a delegated trait value")) {
+        return NULL;
+    }
+
     if ((dict == NULL)
         || ((delegate = PyDict_GetItem(dict, trait->delegate_name)) == NULL)) {
         // Handle the case when the delegate is not in the instance dictionary
         // (could be a method that returns the real delegate):
         delegate = has_traits_getattro(obj, trait->delegate_name);
         if (delegate == NULL) {
+            Py_LeaveRecursiveCall();
             return NULL;
         }
     }
@@ -2054,6 +2062,7 @@ getattr_delegate(trait_object *trait, has_traits_object *obj, PyObject *name)
     if (!PyUnicode_Check(name)) {
         invalid_attribute_error(name);
         Py_DECREF(delegate);
+        Py_LeaveRecursiveCall();
         return NULL;
     }
 
@@ -2075,6 +2084,7 @@ getattr_delegate(trait_object *trait, has_traits_object *obj, PyObject *name)
 done:
     Py_DECREF(delegate_attr_name);
     Py_DECREF(delegate);
+    Py_LeaveRecursiveCall();
     return result;
 }
 
